@@ -30,6 +30,7 @@ type c28Req struct {
 	Kind  string `json:"kind"`
 	Blen  int    `json:"blen"`
 	Chunk int    `json:"chunk,omitempty"` // chunk size of a chunked body (0 = 1000)
+	Tail  string `json:"tail,omitempty"`  // chunk-defect family (c28chunk.go): decoy | next | fin
 }
 
 type c28Case struct {
@@ -38,6 +39,7 @@ type c28Case struct {
 	Splits []int    `json:"splits"`        // write sizes; empty = one segment
 	Fam    string   `json:"fam,omitempty"` // "" = original family, "bodied" = bodies on methods that usually have none
 	Seq    bool     `json:"seq,omitempty"` // keep-alive: request i+1 is written only after the final response to request i arrived (false = pipelined)
+	Fin    bool     `json:"fin,omitempty"` // the client half-closes (FIN) after the last octet and goes on reading
 }
 
 var c28Kinds = []string{
@@ -113,7 +115,7 @@ func c28WellFormed(kind string) bool {
 	case "big-header", "bad-request-line", "mod-post-chunked-badsize", "post-chunked-badsize":
 		return false
 	}
-	return true
+	return !c28IsDefect(kind)
 }
 
 func c28WriteChunked(out *bytes.Buffer, body []byte, k int) {
@@ -138,6 +140,9 @@ func c28WriteChunked(out *bytes.Buffer, body []byte, k int) {
 func (c *c28Case) reqBytes(i int) []byte {
 	var out bytes.Buffer
 	q := c.Reqs[i]
+	if c28IsDefect(q.Kind) {
+		return c.defectReqBytes(i)
+	}
 	id := c.rid(i)
 	body := c28Body(id, q.Blen)
 	last := i == len(c.Reqs)-1
@@ -150,7 +155,7 @@ func (c *c28Case) reqBytes(i int) []byte {
 		mod = "X-Mod: 1\r\n"
 	}
 	head := func(method, version string) {
-		fmt.Fprintf(&out, "%s /c28/%s %s\r\nHost: c28.test\r\nX-Id: %s\r\n%s%s", method, id, version, id, mod, closeHdr)
+		fmt.Fprintf(&out, "%s /c28/%s %s\r\nHost: %s\r\nX-Id: %s\r\n%s%s", method, id, version, c28Host(q.Kind), id, mod, closeHdr)
 	}
 	if m, framing, _, ok := c28Bodied(q.Kind); ok {
 		head(strings.ToUpper(m), "HTTP/1.1")
@@ -173,7 +178,7 @@ func (c *c28Case) reqBytes(i int) []byte {
 	case "get-http10":
 		head("GET", "HTTP/1.0")
 		out.WriteString("\r\n")
-	case "post-cl", "mod-post-cl":
+	case "post-cl", "mod-post-cl", "early-post-cl":
 		head("POST", "HTTP/1.1")
 		fmt.Fprintf(&out, "Content-Length: %d\r\n\r\n", len(body))
 		out.Write(body)
@@ -181,7 +186,7 @@ func (c *c28Case) reqBytes(i int) []byte {
 		head("POST", "HTTP/1.1")
 		fmt.Fprintf(&out, "Connection: close\r\nContent-Length: %d\r\n\r\n", len(body))
 		out.Write(body)
-	case "post-chunked", "mod-post-chunked":
+	case "post-chunked", "mod-post-chunked", "early-post-chunked":
 		head("POST", "HTTP/1.1")
 		out.WriteString("Transfer-Encoding: chunked\r\n\r\n")
 		c28WriteChunked(&out, body, q.Chunk)
@@ -208,7 +213,7 @@ func c28Terminal(k string) bool {
 	case "get-http10", "big-header", "bad-request-line", "post-cl-conn-close", "mod-post-chunked-badsize", "post-chunked-badsize":
 		return true
 	}
-	return false
+	return c28IsDefect(k)
 }
 
 func c28Gen(g *vkit.Rand, id int) *c28Case {
@@ -458,6 +463,11 @@ write:
 			}
 		}
 	}
+	if c.Fin {
+		if tc, ok := conn.(*net.TCPConn); ok {
+			tc.CloseWrite()
+		}
+	}
 	writerDone.Store(time.Now().UnixNano())
 	<-done
 	stalled, gaveUp := res.writeStalled, res.seqGaveUp
@@ -478,10 +488,12 @@ func c28(r *vkit.Run) {
 		}
 		return e2e.Action{Status: 200, Header: [][2]string{{"X-Echo-Id", id}, {"X-Body-Len", strconv.Itoa(len(x.Body))}, {"X-Body-Ok", bodyOK}}, Body: []byte("backend " + id)}
 	})
+	earlyBe, earlyCluster := c28EarlyBackend() // chunk-defect family: a backend that replies as soon as it has the request head
+	defer earlyBe.Close()
 	srv, err := e2e.Start(&e2e.Options{MaxHeaderBytes: 8192, Clusters: []e2e.Cluster{{
 		Name: "c28", Hosts: []string{"c28.test"}, MaxIdleConnsPerHost: 0,
 		SubClusters: []e2e.SubCluster{{Name: "sub1", Weight: 100, Backends: []e2e.Backend{{Name: "b1", Addr: be.Addr, Port: be.Port, Weight: 10}}}},
-	}}})
+	}, earlyCluster}})
 	if err != nil {
 		r.Inconclusive("server start: " + err.Error())
 		return
@@ -526,6 +538,13 @@ func c28(r *vkit.Run) {
 		for i := 0; i < nb; i++ {
 			cases = append(cases, c28GenBodied(r.Rng("bodied", i), n+i))
 		}
+		// third family (c28chunk.go): one chunk-framing defect per connection, cells enumerated round-robin
+		dcells := c28DefectCells()
+		dorder := r.Rng("chunkdefect-order", 0).Perm(len(dcells))
+		nd := r.N(2*len(dcells), 30*len(dcells))
+		for i := 0; i < nd; i++ {
+			cases = append(cases, c28GenDefect(r.Rng("chunkdefect", i), n+nb+i, dcells[dorder[i%len(dcells)]]))
+		}
 	}
 	selfcheckFailed := 0
 	for _, c := range cases {
@@ -566,6 +585,13 @@ func c28(r *vkit.Run) {
 		}
 		arrivals[x.Req.Header.Get("X-Id")]++
 	}
+	for _, h := range earlyBe.Heads() {
+		if strings.HasPrefix(h.Target, "/decoy/") {
+			decoyAtBackend[strings.TrimPrefix(h.Target, "/decoy/")] = true
+		}
+		arrivals[h.Get("X-Id")]++
+	}
+	defectCells := map[string]int64{}
 	firstFamSamples := 0
 	for i, c := range cases {
 		var kinds []string
@@ -573,6 +599,9 @@ func c28(r *vkit.Run) {
 			k := fmt.Sprintf("%s/%d", q.Kind, q.Blen)
 			if q.Chunk != 0 {
 				k += fmt.Sprintf("/%d", q.Chunk)
+			}
+			if q.Tail != "" {
+				k += "/" + q.Tail
 			}
 			kinds = append(kinds, k)
 		}
@@ -599,6 +628,7 @@ func c28(r *vkit.Run) {
 		raw := res.raw
 		cut := res.reset || res.hung != ""
 		answered := 0
+		var statuses []int // status of the final response to request #i
 		ok := true
 		pos := 0
 		lastRespClose, lastCloseDelimited, tailCut := false, false, false
@@ -679,7 +709,7 @@ func c28(r *vkit.Run) {
 				ok = false
 				break
 			}
-			if len(echo) == 1 && !strings.HasSuffix(q.Kind, "badsize") {
+			if len(echo) == 1 && !strings.HasSuffix(q.Kind, "badsize") && !c28IsDefect(q.Kind) {
 				if bl := http1.Get(resp.Fields, "X-Body-Len"); len(bl) == 1 { // answered by the backend
 					bok := http1.Get(resp.Fields, "X-Body-Ok")
 					if bl[0] != strconv.Itoa(q.Blen) || len(bok) != 1 || bok[0] != "1" {
@@ -690,6 +720,7 @@ func c28(r *vkit.Run) {
 				}
 			}
 			answered++
+			statuses = append(statuses, resp.Status)
 			lastCloseDelimited = resp.CloseDelimited
 			lastRespClose = false
 			for _, v := range http1.Get(resp.Fields, "Connection") {
@@ -719,6 +750,8 @@ func c28(r *vkit.Run) {
 			reason := ""
 			if ok && !tailCut && answered > 0 {
 				switch q := c.Reqs[answered-1]; {
+				case c28IsDefect(q.Kind):
+					reason = "framing-error"
 				case c28Terminal(q.Kind):
 					reason = "request-ending-the-connection"
 				case answered == len(c.Reqs):
@@ -788,7 +821,14 @@ func c28(r *vkit.Run) {
 				terminalMid = true
 			}
 		}
-		if c.Fam == "bodied" {
+		if c.Fam == "chunkdefect" {
+			r.Count("chunkdefect_connections", 1)
+			nt := c28DefectAccount(r, c, res, ok, answered, statuses, arrivals, defectCells, w)
+			r.CaseS(key, nt)
+			if nt && i%53 == 0 && r.WantSample() {
+				r.Sample(map[string]interface{}{"kinds": kinds, "answered": answered, "statuses": statuses, "keep_alive": c.Seq, "client_fin": c.Fin})
+			}
+		} else if c.Fam == "bodied" {
 			r.CaseS(key, bodiedInSync)
 		} else {
 			r.CaseS(key, answered >= 2 || terminalMid)
@@ -827,6 +867,9 @@ func c28(r *vkit.Run) {
 				r.Inconclusive(k + " = 0")
 			}
 		}
+	}
+	if r.Replay == "" && r.Counter("not_run_after_repeated_hangs") == 0 {
+		c28DefectCoverage(r, defectCells)
 	}
 	if r.Replay == "" && r.Counter("connections_fully_answered") == 0 {
 		r.Inconclusive("no pipelined connection was answered completely")
